@@ -246,6 +246,12 @@ func genScenarioKind(r *lib.Rng, cp int, i int, kind int, topic string) Case {
 		}
 	default:
 		c.Kind = "stall"
+		stats := i%8 == 4
+		if stats {
+			// the relay's own topic: its status reporter is a member there and is never evicted;
+			// websocket readers on it are readers like any other: here their queues always overflow
+			c.Topic = "stats"
+		}
 		var ws []uint64
 		for k := r.Range(1, 2); k > 0; k-- {
 			ws = append(ws, g.join(rw, false))
@@ -261,13 +267,17 @@ func genScenarioKind(r *lib.Rng, cp int, i int, kind int, topic string) Case {
 			g.send(ws[r.Intn(len(ws))], smallSizes[r.Intn(len(smallSizes))])
 			var stalled []uint64
 			for _, s := range slow {
-				if r.Chance(3, 4) {
+				if stats || r.Chance(3, 4) {
 					g.ops = append(g.ops, Op{K: "stall", N: s})
 					stalled = append(stalled, s)
 				}
 			}
 			// blockers: enough bytes to fill the socket buffers so the relay's writer blocks mid-frame
-			if r.Bool() {
+			if stats {
+				for k := r.Range(9, 12); k > 0; k-- {
+					g.send(ws[r.Intn(len(ws))], 1<<20)
+				}
+			} else if r.Bool() {
 				bsz := []int{1 << 20, 3 << 20, 1<<20 + 4099, 700001}[r.Intn(4)]
 				for k := r.Range(4, 10); k > 0; k-- {
 					g.send(ws[r.Intn(len(ws))], bsz)
@@ -289,6 +299,9 @@ func genScenarioKind(r *lib.Rng, cp int, i int, kind int, topic string) Case {
 				n = r.Range(1, 2*cp+2)
 			default:
 				n = r.Range(0, 3)
+			}
+			if stats {
+				n = cp + r.Range(3, 8)
 			}
 			if n > 1100 {
 				n = 1100
